@@ -351,6 +351,28 @@ func registerStrings(e *Engine) {
 		}
 		return nil
 	})
+	reg("sort.Slice", func(in *Interp, caller *frame, _ *ssa.Function, args []Value, pos tokenPos) Value {
+		iv := args[0].(IfaceV)
+		sl, ok := iv.V.(SliceV)
+		if !ok || sl.arr == nil || sl.len < 2 {
+			return nil
+		}
+		arr := sl.arr.val.(*ArrayV)
+		mk := func(i int) Value { return Sc{in.b.BV(uint64(i), 64)} }
+		// insertion sort driven by the caller's less function (forks on undecided comparisons)
+		for i := 1; i < sl.len; i++ {
+			for j := i; j > 0; j-- {
+				r := in.callValue(caller, args[1], []Value{mk(j), mk(j - 1)}, pos)
+				if in.branch(r.(Sc).T) {
+					arr.E[sl.off+j], arr.E[sl.off+j-1] = arr.E[sl.off+j-1], arr.E[sl.off+j]
+				} else {
+					break
+				}
+			}
+		}
+		in.note("sort.Slice modelled as insertion sort (order of elements that compare equal may differ from pdqsort)")
+		return nil
+	})
 	reg("sort.Sort", func(in *Interp, caller *frame, _ *ssa.Function, args []Value, pos tokenPos) Value {
 		iv := args[0].(IfaceV)
 		call := func(name string, a ...Value) Value {
